@@ -4,6 +4,7 @@ pub mod c15;
 pub mod c16;
 pub mod c17;
 pub mod c18;
+pub mod c19;
 pub mod c20;
 pub mod c21;
 pub mod c22;
@@ -18,6 +19,7 @@ pub fn registry() -> Vec<(&'static str, CheckFn)> {
         ("C16", c16::run as CheckFn),
         ("C17", c17::run as CheckFn),
         ("C18", c18::run as CheckFn),
+        ("C19", c19::run as CheckFn),
         ("C20", c20::run as CheckFn),
         ("C21", c21::run as CheckFn),
         ("C22", c22::run as CheckFn),
